@@ -144,6 +144,12 @@ finding("C02-divi-template-strength", "C02", ["C01"],
  "std.sql.prql declares `@{binding_strength=100} let div_i = l r -> s\"FLOOR(ABS(..)) * SIGN(..) * SIGN(..)\"` (sqlite: ROUND(..) * SIGN * SIGN): the body is a product, so as the right operand of `%` it needs parentheses it does not get: `(1 + 2) % (-2 // i1)` -> `(1 + 2) % FLOOR(ABS(-2 / i1)) * SIGN(-2) * SIGN(i1)` = ((1+2) % F) * S * S, wrong sign.",
  {"source": "from t1 | select {c = 7 % (a // (-1))}", "arity": 1, "rows": [[I(0)],[I(0)],[I(1)]]})
 
+finding("C04-stale-sort-after-aggregate", "C04", ["C01", "C03"],
+ "`sort ... | aggregate {...}` followed later by a window function (hazard sorted_aggregate)",
+ "aggregate resets the order, but the sort in effect before it is still used as the ORDER BY of later window functions: `from t1 | select {id, a} | sort {-id} | aggregate {m = min a} | join side:right (from t2 | select {c = id}) (m == c) | derive {r = (rank c)}` emits `RANK() OVER (ORDER BY table_1.id DESC)`; without an order in effect every row has rank 1.",
+ {"source": "from t1 | select {id, a} | sort {-id} | aggregate {m = min a} | join side:right r0 = (from t2 | select {c = id}) (m == c) | derive {r = (rank c)}", "arity": 3,
+  "rows": [[I(1),I(1),I(1)],[N,I(2),I(1)]]})
+
 k = json.load(open(os.path.join(V, "known_findings.json")))
 keep = [f for f in k["findings"] if f["id"] not in {x["id"] for x in FINDINGS}]
 k["findings"] = keep + FINDINGS
